@@ -555,6 +555,46 @@ func init() {
 			sb.WriteString(untranslatable("modeSource") + "\n")
 		}
 
+		// ---- numerical.go as a state machine: the state (struct fields) and the statements of the three methods that change it
+		// (`Analyze` sorts s.values in place; a cached "already sorted" flag or a skipped sort is a different machine)
+		for _, a := range [][2]string{{"MatchNumerical.Samplef", "samplefSource"}, {"MatchNumerical.Sample", "numSampleSource"}, {"MatchNumerical.Analyze", "analyzeSource"}} {
+			if fd := c.Func(fNum, a[0]); fd != nil && fd.Body != nil {
+				fmt.Fprintf(&sb, "/-- `%s` (%s): its statements -/\ndef %s : List String := %s\n\n", a[0], fNum, a[1], leanStrList(c07stmtText(c, fd.Body.List)))
+			} else {
+				sb.WriteString(untranslatable(a[1]) + "\n")
+			}
+		}
+		for _, a := range [][2]string{{"MatchNumerical", "numericalFields"}, {"StatisticalAnalysis", "analysisFields"}, {"NumericalConfig", "numericalConfigFields"}} {
+			var fields []string
+			found := false
+			if f := c.File(fNum); f != nil {
+				ast.Inspect(f, func(n ast.Node) bool {
+					ts, ok := n.(*ast.TypeSpec)
+					if !ok || ts.Name.Name != a[0] {
+						return true
+					}
+					if st, ok := ts.Type.(*ast.StructType); ok && st.Fields != nil {
+						found = true
+						for _, fl := range st.Fields.List {
+							ty := strings.Join(strings.Fields(c.Print(fl.Type)), "")
+							if len(fl.Names) == 0 {
+								fields = append(fields, ty)
+							}
+							for _, nm := range fl.Names {
+								fields = append(fields, nm.Name+" "+ty)
+							}
+						}
+					}
+					return false
+				})
+			}
+			if found {
+				fmt.Fprintf(&sb, "/-- `type %s struct` (%s): its fields -/\ndef %s : List String := %s\n\n", a[0], fNum, a[1], leanStrList(fields))
+			} else {
+				sb.WriteString(untranslatable(a[1]) + "\n")
+			}
+		}
+
 		// ---- counter.go
 		c.c07Conds(&sb, fCnt, "minSlice", "minSliceConds", "(len count : Int)", map[string]string{"len(items)": "len", "count": "count"}, 1)
 		for _, a := range [][3]string{{fCnt, "MatchCounter.Sample", "counterSampleSource"}, {fSub, "SubKeyCounter.Sample", "subKeySampleSource"},
